@@ -333,6 +333,9 @@ func init() {
 						it = pl.shared[i]
 						pl.shared = append(pl.shared[:i:i], pl.shared[i+1:]...)
 					}
+					if o := objPtr(it); o != nil {
+						delete(cur.pooledObjs, o)
+					}
 					return it
 				}
 			}
@@ -348,6 +351,12 @@ func init() {
 			pl := poolOf(p, true)
 			if it, ok := args[1].(iface); ok && it.t == nil {
 				return nil // Put(nil) is a no-op
+			}
+			if o := objPtr(args[1]); o != nil {
+				if cur.pooledObjs[o] && cur.freezeOn {
+					cur.monitorViolation(fr, "C08:object-returned-to-the-pool-twice")
+				}
+				cur.pooledObjs[o] = true
 			}
 			if pl.private == nil {
 				pl.private = args[1]
@@ -895,4 +904,13 @@ func init() {
 		cur.builders[a[0].(*value)] += r
 		return tuple{len(r), iface{}}
 	}
+}
+
+func objPtr(v value) *value {
+	if it, ok := v.(iface); ok {
+		if p, ok := it.v.(*value); ok {
+			return p
+		}
+	}
+	return nil
 }
